@@ -75,6 +75,7 @@ def make_angles(nt, pattern):
 
 GEOMS = [  # (geom, kappa, delta)
     (0, 0.0, 0.0), (1, 0.3, 0.2), (2, 0.3, 1.4), (1, 0.1, 0.05), (2, 0.1, 1.0), (3, 0.0, 0.0),
+    (1, 1.5, 0.1),   # Shafranov with kappa > 1: orientation reversing, det DF < 0 everywhere (the code takes |det DF|)
 ]
 PROFILES = [(0, 0), (1, 0), (1, 1), (2, 0), (2, 1), (3, 0), (3, 1)]  # (alpha, beta)
 AJUMP = {0: 0.5, 1: 0.66, 2: 0.4837, 3: 0.7081}
@@ -163,13 +164,13 @@ def lattice(nrs, nts, what, tier, min_circles=2, min_radial=3, need_odd_nr=False
 
 
 FULL_BLOCK_RULE = ("thorough tier only: on the structural lattice nr {5,7,8} (C07: {7,9}) x ntheta {4,8,12} x every split class x "
-                   "interior boundary, the full product of 5 radial spacing patterns x 3 angular patterns x 6 geometries instead of the "
+                   "interior boundary, the full product of 5 radial spacing patterns x 3 angular patterns x 7 geometries instead of the "
                    "pairwise cycling of the main lattice (case ids f*)")
 
 
 def full_block(nrs, nts, what, tier, **kw):
     """thorough tiers: on a small structural lattice, the full product spacing pattern x angle pattern x geometry
-    (5 x 3 x 6) for every structural class (nr, ntheta, split class, boundary) instead of the pairwise cycling"""
+    (5 x 3 x 7) for every structural class (nr, ntheta, split class, boundary) instead of the pairwise cycling"""
     return lattice(nrs, nts, what, tier, full_product=True, id_prefix="f", **kw)
 
 
